@@ -682,6 +682,18 @@ def real_truncation_replay():
                 bad.append([k, "wrong result"])
         except Exception as e:
             bad.append([k, type(e).__name__])
+    # damaged body, intact end-of-file directory (np.load opens it lazily; the member read fails)
+    for pos in sorted({len(blob) // 7, len(blob) // 3, len(blob) // 2, (2 * len(blob)) // 3, 87 if len(blob) > 200 else 1}):
+        dmg = bytearray(blob)
+        for j in range(pos, min(pos + 16, len(blob) - 64)):
+            dmg[j] ^= 0xFF
+        with open(f, "wb") as fh:
+            fh.write(bytes(dmg))
+        try:
+            r = S(q, z, prof, dom, lv, cache=RC.GreensFunctionCache(d), **kw)
+            # a flipped payload byte that every check accepts is served as stored: only raising is the violation here
+        except Exception as e:
+            bad.append(["damaged at %d" % pos, type(e).__name__])
     # interrupted write: np.savez dies half way
     orig = np.savez
 
@@ -755,7 +767,7 @@ def main(run):
     run.assumptions = [
         "SHA-256 is collision-free; equal update() token sequences <=> equal keys (concatenation ambiguities across arrays of different length are outside the model; all requests use 4 vertical nodes)",
         "tobytes() of a float array = its values (shape dropped); str(x)/repr(x) injective on floats",
-        "np.load of a complete file returns what np.savez stored; of a partial file raises BadZipFile, EOFError, ValueError or OSError; os.replace is atomic",
+        "np.load of a complete file returns what np.savez stored; a truncated or damaged file fails with BadZipFile, EOFError, ValueError or OSError either when it is opened or (lazy .npz) when a member is read; os.replace is atomic",
         "the VALUES of srf_flx are not result-determining in footprint mode (C04); `cache` itself is not",
     ]
     run.extra["signature_classification"] = CLASSIFIED
